@@ -9,7 +9,7 @@ from __future__ import annotations
 
 from typing import Any, Callable
 
-from exabgp.protocol.family import SAFI
+from exabgp.protocol.family import AFI, SAFI
 from exabgp.bgp.message.update.nlri.qualifier import RouteDistinguisher
 
 from exabgp.configuration.core import Section
@@ -100,6 +100,8 @@ class ParseFlowRoute(Section):
         pass
 
     def pre(self) -> bool:
+        # the family of this flow is the one of its own source / destination, not of the last route parsed
+        self.parser.tokeniser.afi = AFI.undefined
         self.scope.append_route(flow())
         return True
 
